@@ -5,7 +5,7 @@ import ast
 from itertools import combinations
 
 from ..astx import un, NoValue, walk_shallow, call_name, kwarg, const_value
-from ..absint import Obj, Unk
+from ..absint import Obj, Unk, ClassRef
 from ..core import rule, fixture_for, Unknown
 from ..callsites import ENTRY_POINTS, Scenario, run_entry
 
@@ -70,8 +70,10 @@ def dataclass_fields(repo, cls_qual):
         meta = {}
         if isinstance(kws.get("metadata"), ast.Dict):
             meta = {const_value(k): True for k in kws["metadata"].keys if isinstance(k, ast.Constant)}
+        ann = un(st.annotation).strip("'\"")
         out.append(Obj("Field", {"name": st.target.id, "compare": flag("compare"), "init": flag("init"),
-                                 "repr": flag("repr"), "metadata": meta, "fmt": f"<field {st.target.id}>"}))
+                                 "repr": flag("repr"), "metadata": meta, "type": ClassRef(ann.split("[")[0].split(".")[-1]),
+                                 "fmt": f"<field {st.target.id}>"}))
     return out
 
 
@@ -176,7 +178,9 @@ def eq_fields(ctx):
             ctx.ok(c, st, compared=False, determined_by_compared_fields=True)
 
 
-@rule("C14.algebra-check", props=["C14"], min_instances=4, mutants=[
+@rule("C14.algebra-check", props=["C14"], min_instances=8, mutants=[
+    ("binary check compares the metric only", ("operator_dict", "        if not (mv1.algebra is mv2.algebra or mv1.algebra == mv2.algebra):", "        if not (mv1.algebra is mv2.algebra or tuple(mv1.algebra.signature) == tuple(mv2.algebra.signature)):")),
+    ("binary check compares the dimension only", ("operator_dict", "        if not (mv1.algebra is mv2.algebra or mv1.algebra == mv2.algebra):", "        if not (mv1.algebra is mv2.algebra or len(mv1.algebra) == len(mv2.algebra)):")),
     ("binary check dropped", ("operator_dict", "        if not (mv1.algebra is mv2.algebra or mv1.algebra == mv2.algebra):\n            raise AlgebraError", "        if False:\n            raise AlgebraError")),
     ("n-ary check compares only the second operand", ("operator_dict", "        if any((mvs[0].algebra != mv.algebra) for mv in mvs[1:]):\n            raise AlgebraError(\"Cannot multiply elements of different algebra's.\")\n\n        keys_in = tuple(mv.keys() for mv in mvs)\n        values_in = tuple(mv.values() for mv in mvs)\n        keys_out, func = self[keys_in]\n        issymbolic",
                                                       "        if any((mvs[0].algebra != mv.algebra) for mv in mvs[1:2]):\n            raise AlgebraError(\"Cannot multiply elements of different algebra's.\")\n\n        keys_in = tuple(mv.keys() for mv in mvs)\n        values_in = tuple(mv.values() for mv in mvs)\n        keys_out, func = self[keys_in]\n        issymbolic")),
@@ -188,10 +192,10 @@ def algebra_check(ctx):
         if n < 2:
             continue
         fn = ctx.func(q)
-        for foreign_at in range(1, n):
-            c = f"{q}#foreign@{foreign_at}"
+        for foreign_at, fkind in [(i, k) for i in range(1, n) for k in ("basis", "signature-order")]:
+            c = f"{q}#foreign@{foreign_at}:{fkind}"
             try:
-                log = run_entry(repo, q, Scenario((), False, True, n, foreign_at=foreign_at))
+                log = run_entry(repo, q, Scenario((), False, True, n, foreign_at=foreign_at, foreign_kind=fkind))
             except NoValue as exc:
                 raise Unknown(c, str(exc), fn)
             if log["out"] == ("raise", "AlgebraError") and not log["lookups"]:
@@ -204,7 +208,9 @@ def algebra_check(ctx):
                                  f"different algebras are silently combined", fn)
 
 
-@rule("C14.named-bases", props=["C14"], min_instances=3, mutants=[
+@rule("C14.named-bases", props=["C14", "C13"], min_instances=6, mutants=[
+    ("3DPGA ignores the options", ("algebra", "            return cls(3, 0, 1, basis=basis, **kwargs)", "            return cls(3, 0, 1, basis=basis)")),
+    ("STAP basis not passed on", ("algebra", "            return cls(3, 1, 1, basis=basis, **kwargs)", "            return cls(3, 1, 1, **kwargs)")),
     ("STAP lists e314 twice", ("algebra", "\"e234\", \"e314\", \"e124\"", "\"e234\", \"e314\", \"e314\"")),
     ("3DPGA built as (2,0,1)", ("algebra", "            return cls(3, 0, 1, basis=basis, **kwargs)", "            return cls(2, 0, 1, basis=basis, **kwargs)")),
     ("2DPGA blade out of grade order", ("algebra", "basis = [\"e\", \"e1\", \"e2\", \"e0\", \"e20\", \"e01\", \"e12\", \"e012\"]", "basis = [\"e\", \"e1\", \"e2\", \"e20\", \"e0\", \"e01\", \"e12\", \"e012\"]")),
@@ -215,8 +221,16 @@ def named_bases(ctx):
     from .c01 import named_algebras
     fn = ctx.func("algebra.Algebra.fromname")
     table = named_algebras(ctx.repo)
-    for name, (pqr, basis, kwnames) in table.items():
+    from .c01 import NAMED_OPTIONS
+    for name, (pqr, basis, kwnames, passed) in table.items():
         c = f"algebra.Algebra.fromname#{name}"
+        lost = {k: passed.get(k) for k, v in NAMED_OPTIONS.items() if passed.get(k) != v}
+        if lost:
+            ctx.violation(f"{c}:options", f"named algebra {name}: the options handed to fromname do not reach the constructor "
+                                          f"({', '.join(f'{k}={NAMED_OPTIONS[k]!r} arrives as {v!r}' for k, v in lost.items())}): "
+                                          f"Algebra.fromname({name!r}, graded=True, wrapper=..., cse=False) silently builds a default-option algebra", fn)
+        else:
+            ctx.ok(f"{c}:options", fn, options=sorted(NAMED_OPTIONS))
         if basis is None:
             ctx.violation(c, f"named algebra {name}: no basis is passed to the constructor (keywords {kwnames})", fn)
             continue
